@@ -55,6 +55,7 @@ class SealCore(Stream):
     harness = {"name": "c10core", "module": "root", "pkg": "./internal/vault",
                "files": {"internal/vault/zz_verif_common_test.go": "wb/vault/zz_verif_common_test.go",
                          "internal/vault/zz_verif_c10_test.go": "wb/vault/zz_verif_c10_test.go",
+                         "internal/vault/zz_verif_c10h_test.go": "wb/vault/zz_verif_c10h_test.go",
                          "internal/zzverif/vh/vh.go": "vh/vh.go"}}
     testname = "TestVerifC10Core"
     timeout = 900
@@ -90,9 +91,30 @@ class SealCore(Stream):
         return not impl.startswith("err") and impl not in ("bad-op", "nil", "insufficient")
 
 
+class SealHA(Stream):
+    name = "sealha"
+    driver = "sealha"
+    harness = {"name": "c10core", "module": "root", "pkg": "./internal/vault",
+               "files": {"internal/vault/zz_verif_common_test.go": "wb/vault/zz_verif_common_test.go",
+                         "internal/vault/zz_verif_c10_test.go": "wb/vault/zz_verif_c10_test.go",
+                         "internal/vault/zz_verif_c10h_test.go": "wb/vault/zz_verif_c10h_test.go",
+                         "internal/zzverif/vh/vh.go": "vh/vh.go"}}
+    testname = "TestVerifC10HA"
+    timeout = 900
+    rule = ("a real two-node cluster (forwarding, invalidation, namespace key synchronisation) with a separately sealed "
+            "namespace: the active node rotates (the namespace's root key; nothing; thorough: the namespace's / the root's "
+            "encryption key) and steps down; on the node that takes over: the root and the namespace keyring against the former "
+            "active node's, entries written before read back, and — after one more key rotation there — the namespace sealed "
+            "and unsealed with its never-changed shares; expected answer from the two-barrier model (standby_follows_active); "
+            "non-trivial = every line")
+
+    def nontrivial(self, op, impl):
+        return True
+
+
 class C10(PropCheck):
     pid = "C10"
-    streams = [SealKeys(), SealCore()]
+    streams = [SealKeys(), SealCore(), SealHA()]
     level_text = ("Lean theorems over a symbolic (Dolev-Yao) model of the key hierarchy seal key -> stored keys -> root key -> "
                   "keyring -> term keys -> records: sealed_serves_nothing + sealed_holds_no_keys, "
                   "unseal_wrong_key_stays_sealed, rotation_history_readable (consistency invariant preserved by every "
